@@ -217,6 +217,18 @@ func c12Local(R *vr.Result, rng *rand.Rand, id string, def uint, policy bool) {
 		}
 		path, before, _, _ := st.File(u.Name)
 		ino := fileIno(path)
+		// every other user: the work area holds what interrupted earlier writes of this user may have left behind - complete
+		// replacement files (longer than the record is now) under every name a writer might choose for its work file
+		planted := map[string]bool{}
+		if k%2 == 1 {
+			stale := append(append([]byte{}, before...), []byte("\nstale-line-1: "+strings.Repeat("S", 300)+"\nstale-line-2: "+strings.Repeat("T", 300)+"\n")...)
+			for _, n := range []string{u.Name + ".user", u.Name + ".admin", u.Name + ".user.new", u.Name + ".admin.new", u.Name + ".user.tmp", u.Name + ".tmp", u.Name, "." + u.Name + ".user", u.Name + ".user~"} {
+				if os.WriteFile(filepath.Join(st.Base, ".tmp", n), stale, 0600) == nil {
+					planted[".tmp/"+n] = true
+				}
+			}
+			R.Count("logins_with_stale_work_files", 1)
+		}
 		others := ref.TakeSnap(st.Base)
 		ok := fr.login(via, u.Name, u.Pw)
 		c12Barrier(fr.iface)
@@ -236,8 +248,11 @@ func c12Local(R *vr.Result, rng *rand.Rand, id string, def uint, policy bool) {
 		rew := c12After(R, id, st, def, u, before, ino, u.Pw, ok, must, via)
 		// every other file untouched
 		diff := ref.Diff(others, ref.TakeSnap(st.Base), ref.DiffOpts{Inode: true, IgnorePath: func(rel string) bool {
-			return ref.IgnoreTmpDir(rel) || strings.HasPrefix(rel, u.Name+".")
+			return ref.IgnoreTmpDir(rel) || strings.HasPrefix(rel, u.Name+".") || planted[rel] // entries of the work area may be reused or cleared
 		}})
+		for rel := range planted {
+			os.Remove(filepath.Join(st.Base, rel)) //nolint:errcheck
+		}
 		if len(diff) > 0 {
 			R.Violate("c12:login-touched-other-files", fmt.Sprint(diff), id, map[string]any{"user": u.Name, "diff": diff})
 		}
